@@ -14,6 +14,17 @@ CHECKS = {
    note='Trusted: clang typing and macro expansion, C integer semantics of the host compiler. Not decided: non-builtin clz/ctz/popcnt '
         'fallback arithmetic; composition over nestings (C03 decides the inductive steps).',
    ref='DESIGN.md 4/C01'),
+ 'C02': dict(
+   technique='partial evaluation per opcode row + typed-template descriptors; exact boundary decision by order abstraction over float breakpoints; finite float-class abstraction for min/max',
+   text='For all 70 float and conversion encodings: arithmetic/comparison rows use the C operator on the slot\'s own IEEE type with '
+        'operands in stack order; abs/sqrt/ceil/floor/trunc/nearest/copysign call a member of the right libm semantic class at the '
+        'right width (round() is rejected for nearest); promote/demote/convert are single roundings with the right integer '
+        'signedness; reinterpret is a same-size memcpy. min/max are decided on the complete class abstraction {NaN,-inf,neg,-0,+0,pos,+inf}^2; '
+        'trapping and saturating truncations are decided exactly at every float adjacent to a guard constant or specification bound '
+        '(off-by-one-ulp boundaries, wrong trap kind, wrong saturation constant and out-of-range C conversions are all reported with a witness).',
+   note='Assumes an IEEE-754 host in round-to-nearest without excess precision and ISO C Annex F libm; NaN payload propagation of the '
+        'C compiler for -x/fabs/copysign is trusted. U64->float rounding direction is implementation-defined in C (noted, not decided).',
+   ref='DESIGN.md 4/C02'),
  'C07': dict(
    technique='partial evaluation of the emitter + exact predicate abstraction over bit fields; AST format/type rules',
    text='Decides statically, for all 2^32/2^64 immediates, that the translator\'s float classification tree equals the '
